@@ -11,7 +11,7 @@ import tempfile
 
 SSE_FLAGS = dict(SSE2=1 << 0, SSE3=1 << 1, SSSE3=1 << 2, SSE4_1=1 << 3, SSE4_2=1 << 4, FP=1 << 7, SJ=1 << 8, B64=1 << 9,
                  AVX=1 << 10, AVX2=1 << 11)
-MMX_FLAGS = dict(MMX=1 << 0, MMXEXT=1 << 1, SSSE3=1 << 4, SSE4_1=1 << 5, FP=1 << 7, SJ=1 << 8, B64=1 << 9)
+MMX_FLAGS = dict(MMX=1 << 0, MMXEXT=1 << 1, SSSE3=1 << 4, SSE4_1=1 << 5, SSE4_2=1 << 6, FP=1 << 7, SJ=1 << 8, B64=1 << 9)
 
 
 def parse_records(path):
@@ -82,6 +82,8 @@ def arch_lines(rec):
             ext.append(".ssse3")
         if f & MMX_FLAGS["SSE4_1"]:
             ext.append(".sse4.1")
+        if f & MMX_FLAGS["SSE4_2"]:
+            ext.append(".sse4.2")
     return [base] + [".arch " + e for e in ext]
 
 
@@ -251,7 +253,8 @@ def _cross_equiv(a, b):
 
 def check_cross(records, idxs, tmpdir):
     """non-x86 listings: llvm-mc assembles the text; the bytes must equal Orc's own, word by word, up to encodings that decode
-    to the same instruction.  A listing llvm-mc rejects is 'inconclusive' (dialect), never a violation."""
+    to the same instruction.  A listing llvm-mc rejects is 'inconclusive' (dialect) unless the objection is to an operand of an
+    instruction it knows (see below)."""
     problems = []
     nchecked = 0
     for i in idxs:
@@ -264,8 +267,18 @@ def check_cross(records, idxs, tmpdir):
         if r.returncode != 0:
             first = [l for l in r.stdout.split("\n") if "error" in l][:1]
             src = [l for l in r.stdout.split("\n") if l.startswith("  ") or l.startswith("\t")][:1]
-            problems.append((rec, "inconclusive TOOL: llvm-mc does not accept the %s listing (dialect?): %s | %s" % (
-                rec["target"], (first or ["?"])[0][-120:], (src or [""])[0].strip()), True))
+            err = (first or ["?"])[0]
+            line = (src or [""])[0].strip()
+            # a rejection is a dialect question (inconclusive) unless llvm-mc knows the instruction and objects to an operand of it:
+            # an immediate outside the instruction's range, an operand kind the instruction does not have, or Orc's own "ERROR"
+            # placeholder for a register it could not name.  Those lines cannot be assembled by any assembler.
+            hard = ("immediate" in err or "invalid operand for instruction" in err or "ERROR" in line)
+            if hard:
+                reason = err.split("error:", 1)[-1].strip()
+                problems.append((rec, "the listing is rejected by llvm-mc: %s  [offending line: %s]" % (reason[:100], line), False))
+            else:
+                problems.append((rec, "inconclusive TOOL: llvm-mc does not accept the %s listing (dialect?): %s | %s" % (
+                    rec["target"], err[-120:], line), True))
             continue
         run([LLVM_OBJCOPY, "-O", "binary", "--only-section=.text", base + ".o", base + ".bin"])
         try:
